@@ -1173,6 +1173,18 @@ func (x *Exec) specCall(env *SpecEnv, n *ECall) TV {
 	st := env.state()
 	arg := func(i int) TV { return x.evalSpec(env, n.Args[i]) }
 	switch name {
+	case "ifbound":
+		// ifbound(x, e): e when the local variable x has been defined on this path, true otherwise
+		// (for call-event obligations at a call that occurs both before and after x's definition)
+		if id, ok := n.Args[0].(*EIdent); ok && len(n.Args) == 2 {
+			if _, have := env.names[id.Name]; !have {
+				if _, lazy := env.lazy[id.Name]; !lazy {
+					return TV{TTrue, types.Typ[types.Bool]}
+				}
+			}
+			return x.evalSpec(env, n.Args[1])
+		}
+		specFail("ifbound(variable, expression)")
 	case "old":
 		sub := *env
 		sub.inOld = true
@@ -1312,6 +1324,13 @@ func (x *Exec) specCall(env *SpecEnv, n *ECall) TV {
 		v := x.D.Fun("natOfSeq", SInt, s)
 		st.Assume(IntCmp(">=", v, IntConstI(0)))
 		return mkSpecInt(v)
+	case "bufdata": // bufdata(b): the unread portion of a *bytes.Buffer, as a byte slice (zz_buffer.go)
+		a := arg(0)
+		p, ok := a.V.(*PtrV)
+		if !ok {
+			specFail("bufdata() needs a *bytes.Buffer")
+		}
+		return TV{x.bufGet(st, p.Ref), types.NewSlice(types.Typ[types.Uint8])}
 	case "fresh": // fresh(x): the object x refers to was allocated during this call (it did not exist at entry)
 		a := arg(0)
 		var ref *Term
